@@ -295,7 +295,45 @@ def r5_verdict_is_current(ctx):
                  floor=3)
 
 
+def r6_game_reports_current_verdict(ctx):
+    """what the game API reports is the verdict computed NOW for the game's own board and side to move: on every returning path
+    Game::check_game_over_for_current_turn returns the result of evaluate::game_ending(&mut self.board, &mut self.move_generator,
+    self.board.turn()) itself - not a remembered answer (a status memo keyed without the occurrence count or the clock), and not a variant
+    of the rule with a per-game limit that some constructor leaves unset"""
+    rule = 'C16.R6-game-reports-current-verdict'
+    facts = ctx.facts
+    name = 'chess::game::game::Game::check_game_over_for_current_turn'
+    GE = 'chess::evaluate::game_ending'
+    if facts.fns.get(name) is None:
+        ctx.anchor_missing(rule, name)
+        return
+    try:
+        outs = Engine(facts, opaque={GE}, readonly={BOARD + '::turn'}, inline_filter=lambda n, c: n.startswith('chess::game::')).run(name)
+    except PathLimit:
+        ctx.anchor_missing(rule, name, 'path limit')
+        return
+    ctx.touch(name)
+    rets = [o for o in outs if o.kind == 'return']
+    bad = []
+    for o in rets:
+        calls = [e for e in o.events if e[0] == 'call' and e[1] == GE]
+        ok = len(calls) == 1 and o.value == ('call', GE, calls[0][2], calls[0][3])
+        if ok:
+            a = calls[0][2]
+            ok = a[0] == ('ref', ('fld', ('der', ('p', 1)), 'board')) and a[1] == ('ref', ('fld', ('der', ('p', 1)), 'move_generator')) \
+                and any(s_[0] == 'call' and s_[1] == BOARD + '::turn' for s_ in subterms(a[2])) or \
+                (a[0] == ('ref', ('fld', ('der', ('p', 1)), 'board')) and a[1] == ('ref', ('fld', ('der', ('p', 1)), 'move_generator'))
+                 and any(s_[0] == 'fld' and s_[2] == 'turn' for s_ in subterms(a[2])))
+        if not ok:
+            bad.append({'returns': show(o.value)[:120], 'conds': [show_cond(c)[:80] for c in o.conds][:3]})
+    ctx.ob(rule, name, 'every path returns evaluate::game_ending(self.board, self.move_generator, self.board.turn()) computed on this call', bool(rets) and not bad,
+           found=bad[:3], expected='evaluate::game_ending(&mut self.board, &mut self.move_generator, self.board.turn())',
+           why='a draw by move count or repetition must be reported at the moment the clock / the occurrence count says so: a remembered status, '
+               'or a rule variant whose limit depends on how the game was constructed, reports it late or never')
+
+
 def run(ctx):
+    r6_game_reports_current_verdict(ctx)
     r5_verdict_is_current(ctx)
     r3b_increment(ctx)
     r1_reset_table(ctx)
